@@ -99,6 +99,8 @@ package blob
 //@ func (*Service).getAll$1
 //@   property C11
 //@   noframe
+//@   requires !$NDOther
+//@   havoc $NDOther $RetrieveFailed
 //@   callpre Service).getBlobs: $arg2 == namespace && $arg3 == header
 
 //@ func (*Service).Subscribe$1
@@ -207,11 +209,21 @@ package blob
 // positioned (set) exactly at EDS position rowIndex*width + index, so by set's contract a blob's index
 // is the EDS position of its first non-padding share: row rowIndex, column start + (its offset in the
 // row's shares) - whatever padding, other blobs of the namespace or earlier rows came before it.
+// (C20: "not found" is the answer only to the share getter's own "not found" - or to a namespace that is
+// there but holds no matching blob; any other failure of the getter, a timeout of its own included, comes
+// back as that failure and never as ErrBlobNotFound, which getBlobs would turn into an empty success.
+// $NDOther: the getter failed with something else than shwap.ErrNotFound. Assumed of the share layer: its
+// errors never wrap the blob package's sentinel.)
+//@ extern (github.com/celestiaorg/celestia-node/share/shwap.Getter).GetNamespaceData
+//@   ensures !is(err, ErrBlobNotFound)
+//@   effect $NDOther := err != nil && !is(err, shwap.ErrNotFound)
 //@ func (*Service).retrieve
-//@   property C11 C12
+//@   property C11 C12 C20
 //@   noframe
+//@   havoc $NDOther
 //@   effect $RetrieveFailed := err != nil && !is(err, ErrBlobNotFound)
-//@   requires s != nil && sharesParser != nil
+//@   ensures $NDOther ==> err != nil && !is(err, ErrBlobNotFound)
+//@   requires s != nil && sharesParser != nil && !$NDOther
 //@   ensures err == nil ==> result0 != nil && result1 != nil
 //@   ensures err != nil ==> result0 == nil && result1 == nil
 //@   param .headerGetter: ensures $result1 == nil ==> $result0 != nil && $result0.DAH != nil
@@ -223,6 +235,10 @@ package blob
 //@   loop 3: invariant len(appShares) == len(row.Shares) - (index - deref(row.Proof).start)
 //@   loop 3: invariant len(appShares) > 0 ==> appShares == row.Shares[index - deref(row.Proof).start:]
 //@   loop 4: invariant err != nil
+//@   loop 1: invariant !$NDOther
+//@   loop 2: invariant !$NDOther
+//@   loop 3: invariant !$NDOther
+//@   loop 4: invariant !$NDOther
 
 // C11 / C12: fetching by commitment selects a blob exactly when its commitment equals the requested one,
 // byte for byte and in length - the three lookups (Get, GetProof, Included) all go through this predicate.
@@ -251,6 +267,7 @@ package blob
 //@ func (*Service).getBlobs
 //@   property C11 C20
 //@   noframe
-//@   havoc $RetrieveFailed
+//@   requires !$NDOther
+//@   havoc $RetrieveFailed $NDOther
 //@   callpre Service).retrieve: $arg2 == header.Height() && $arg3 == namespace
-//@   ensures err == nil ==> !$RetrieveFailed
+//@   ensures err == nil ==> !$RetrieveFailed && !$NDOther
